@@ -250,6 +250,7 @@ IterB(t) == IF t.status = "running" THEN ProcessIo(t) ELSE t
 \* log entry: executed VM, every VM's state and the instantiated set after the iteration; inst2 = the instantiated
 \* set once the next VM to run has been made ready (what a snapshot taken at this boundary records)
 Logged(t) == [t EXCEPT !.log = Append(@, [vm |-> t.trace[Len(t.trace)], states |-> States(t), inst |-> SortedSeq(t.inst),
+                                           left |-> t.iterc,     \* VM swap cycles of process_io, billed by the next iteration
                                            inst2 |-> IF t.status = "running" /\ Runnable(t) # {}
                                                      THEN SortedSeq(Ensure(t, <<MaxOf(Runnable(t))>>).inst) ELSE SortedSeq(t.inst)])]
 Iter(t) == LET u == IterB(IterA(t, IF t.half THEN Tick \div 2 ELSE Tick, ~t.half)) IN
@@ -274,6 +275,8 @@ CutEnd(t) ==
   LET a == IterA(t, IF t.half THEN Tick \div 2 ELSE Tick, ~t.half) IN
   IF a.status = "deadlock" THEN a
   ELSE IF Variant = "skip-io-at-limit-suspend" THEN Logged(SuspendResume([a EXCEPT !.nend = @ + 1]))
+  \* IO completed BEFORE the snapshot: the VM swaps of process_io sit in iterc and are dropped by the resume
+  ELSE IF Variant = "io-before-suspend" THEN Logged(SuspendResume(IterB([a EXCEPT !.nend = @ + 1])))
   ELSE Logged(IterB(SuspendResume([a EXCEPT !.nend = @ + 1])))
 
 Outcome(t) == [status |-> t.status, code |-> t.code, total |-> t.total, trace |-> t.trace]
